@@ -64,7 +64,52 @@ def history_template(draw, user, suffix, max_dirs=3):
                                   G.ph(name)]
     tpl["user"] = {k: dict(v) for k, v in user.items()}
     tpl["file"][-1] = G.lit(suffix)
+    limit = G.dir_period(tpl)
+    if G.end_style(tpl) == "none" and limit is not None \
+            and draw(st.integers(0, 3)) > 0:
+        # no end fields, but a time_coverage that lets files reach over the
+        # boundary of their directory
+        unit = G.RES_DELTA[G.resolution_of(tpl)].total_seconds()
+        choices = [c for c in (60, 1800, 3600, 5400, 21600, 43200, 86400)
+                   if 2 * unit <= c <= limit.total_seconds()]
+        if choices:
+            tpl["coverage_s"] = draw(st.sampled_from(choices))
     return tpl
+
+
+def next_boundary(tpl, t):
+    """start of the directory period (finest temporal directory level) that
+    follows the one of t, or None without temporal directories"""
+    limit = G.dir_period(tpl)
+    if limit is None:
+        return None
+    if limit == dt.timedelta(hours=1):
+        return G.truncate(t, "hour") + limit
+    day = G.truncate(t, "day")
+    if limit == dt.timedelta(days=1):
+        return day + limit
+    if limit == dt.timedelta(days=28):      # month level
+        first = day.replace(day=1)
+        return (first + dt.timedelta(days=32)).replace(day=1)
+    return day.replace(year=day.year + 1, month=1, day=1)
+
+
+def late_period(tpl, near):
+    """a period late in its directory period: with the fileset's
+    time_coverage the file covers the begin of the next one"""
+    cov = tpl["coverage_s"]
+    if cov is None or G.end_style(tpl) != "none":
+        return None
+    boundary = next_boundary(tpl, near)
+    if boundary is None:
+        return None
+    res = G.resolution_of(tpl)
+    s = G.truncate(boundary - dt.timedelta(seconds=cov) / 2, res)
+    if not (s < boundary < s + dt.timedelta(seconds=cov)):
+        return None
+    if not 1966 <= s.year <= 2063:
+        return None
+    return s
 
 
 @st.composite
@@ -78,6 +123,10 @@ def periods_for(draw, tpl, anchor):
             if not 1966 <= e.year <= 2063:
                 e = s
         out.append({"s": s, "e": e, "attrs": f["attrs"]})
+    for k in range(min(2, len(out))):
+        late = late_period(tpl, out[k]["s"])
+        if late is not None and draw(st.integers(0, 3)) > 0:
+            out[k] = {"s": late, "e": late, "attrs": out[k]["attrs"]}
     return out
 
 
@@ -212,6 +261,7 @@ def fileset_specs(draw, family, sep):
             "worker_type": draw(st.sampled_from([None, None, "thread",
                                                  "process"])),
             "periods": draw(periods_for(tpl, anchor)),
+            "coverage_as": draw(st.sampled_from(["td", "str"])),
         }
         spec.update(cfg)
         specs.append(spec)
@@ -458,7 +508,7 @@ def near(draw, bounds):
 
 
 @st.composite
-def selections(draw, bounds, user):
+def selections(draw, bounds, user, cross=()):
     kind = draw(st.sampled_from(["all", "period", "period", "files", "files",
                                  "filters", "filters"]))
     sel = {"kind": kind, "start": None, "end": None,
@@ -468,6 +518,16 @@ def selections(draw, bounds, user):
         sel["end"] = draw(st.one_of(st.none(), near(bounds)))
         if kind == "period" and sel["start"] is None and sel["end"] is None:
             sel["start"] = draw(near(bounds))
+        if cross and draw(st.integers(0, 2)) == 0:
+            # begin inside the directory period that follows the one of a
+            # file which reaches over the boundary
+            boundary, t1 = draw(st.sampled_from(list(cross)))
+            frac = draw(st.sampled_from([0, 0, 1, 2]))
+            start = boundary + (t1 - boundary) * frac / 4
+            sel["start"] = start.replace(microsecond=0) if frac else start
+            sel["end"] = draw(st.sampled_from([
+                None, t1, sel["start"] + dt.timedelta(hours=1),
+                sel["start"] + dt.timedelta(days=1)]))
     if kind == "files":
         sel["idx"] = draw(st.lists(st.integers(0, 11), min_size=0,
                                    max_size=3))
@@ -504,8 +564,27 @@ def histories(draw, family, max_ops=12):
         pool.insert(draw(st.integers(0, len(pool))),
                     draw(st.sampled_from([b"\xeepoison", b"ab\xee"]))
                     if family == "bytes" else {"payload": 1, "flag": "POISON"})
-    bounds = sorted({p[k] for s in specs for p in s["periods"]
-                     for k in ("s", "e")})
+    bounds = {p[k] for s in specs for p in s["periods"] for k in ("s", "e")}
+    for spec in specs:
+        # ends given by a time_coverage, and the directory boundaries that
+        # such files reach over
+        tpl = spec["template"]
+        if tpl["coverage_s"] is not None and G.end_style(tpl) == "none":
+            for per in spec["periods"]:
+                bounds.add(per["s"] + dt.timedelta(seconds=tpl["coverage_s"]))
+                boundary = next_boundary(tpl, per["s"])
+                if boundary is not None and 1966 <= boundary.year <= 2063:
+                    bounds.add(boundary)
+    bounds = sorted(bounds)
+    cross = []
+    for spec in specs:
+        tpl = spec["template"]
+        for per in spec["periods"]:
+            t0, t1 = G.model_times(tpl, per["s"], per["e"])
+            boundary = next_boundary(tpl, t0)
+            if boundary is not None and t0 < boundary < t1 \
+                    and (boundary, t1) not in cross:
+                cross.append((boundary, t1))
 
     def write_op(fs=None):
         return {"op": "write",
@@ -541,7 +620,7 @@ def histories(draw, family, max_ops=12):
                                              "icollect", "collect-files"])),
                 "file": draw(st.integers(0, 11)),
                 "frac": draw(st.sampled_from([0, 0, 1, 2])),
-                "sel": draw(selections(bounds, user))})
+                "sel": draw(selections(bounds, user, cross))})
         elif what == "mirror":
             # copy everything, rewrite some originals with other content of
             # the same size, copy again to the same target
@@ -570,14 +649,14 @@ def histories(draw, family, max_ops=12):
                                                  "raises"])),
                 "worker_type": draw(st.sampled_from([None, "thread",
                                                      "thread", "process"])),
-                "sel": draw(selections(bounds, user))})
+                "sel": draw(selections(bounds, user, cross))})
         else:
             ops.append({
                 "op": "delete", "fs": draw(st.integers(0, n_fs - 1)),
                 "dry_run": draw(st.sampled_from([False, False, True])),
                 "worker_type": draw(st.sampled_from([None, "thread",
                                                      "thread", "process"])),
-                "sel": draw(selections(bounds, user))})
+                "sel": draw(selections(bounds, user, cross))})
     return {"family": family, "sep": sep, "filesets": specs, "pool": pool,
             "ops": ops}
 
